@@ -227,13 +227,13 @@ Proof.
 Qed.
 
 Lemma h_response_post2 E s m (Q : isa -> rout body -> Prop) :
-  (response_handler E (h_exch (p_hdr m)) = None -> Q s RErr) ->
+  (response_handler E (h_exch (p_hdr m)) = None -> Q s (RErr false)) ->
   (forall f, response_handler E (h_exch (p_hdr m)) = Some f ->
              wp (f m) (clear_flags s)
                 (fun r s' => match r with
                              | Ok _ => forall n b, Q s' (ROk n b)
-                             | Raise _ => Q s' RErr
-                             | Stuck => Q (stuck_state s') RErr
+                             | Raise _ => Q s' (RErr (my_msg_id_reset (co s')))
+                             | Stuck => Q (stuck_state s') (RErr false)
                              end)) ->
   Q (fst (h_response E s m)) (snd (h_response E s m)).
 Proof.
@@ -244,7 +244,7 @@ Qed.
 Definition response_step (a : Z) (s' : isa) (out : rout body) : Prop :=
   match out with
   | ROk _ _ => step_ok a (st (co s'))
-  | RErr => st (co s') = STUCK \/ step_ok a (st (co s'))
+  | RErr _ => st (co s') = STUCK \/ step_ok a (st (co s'))
   end.
 
 Theorem h_response_step E s m :
@@ -424,6 +424,30 @@ Section EntryPoints.
           apply (run_pending_from (e :: l) now s2). exact h10.
       + left. cbn [fst]. rewrite h2. exact hs.
     - left. cbn. apply step_ok_deleted; exact ha.
+  Qed.
+
+  (** the response handler raised (or there is none for the exchange type, or the tape did not match): whatever the
+      flag [r] = "the handler had already executed self.my_msg_id = 0" says, the IkeSa ends DELETED and nothing is
+      sent; the handler-owned state is the one the handler left, and [r] only decides what the Message ID counter of
+      the dead IkeSa reads *)
+  Theorem response_error_ends_the_ike_sa (s : sa) m now r :
+    res_id_unexpected (h_id (p_hdr m)) (peer_id P s) (my_id P s) = false ->
+    existsb (Z.eqb (h_exch (p_hdr m))) response_exchanges = true ->
+    snd (h_response E (inner P s) m) = RErr r ->
+    state (fst (process_response P s m now)) = ST_DELETED
+    /\ snd (process_response P s m now) = None
+    /\ inner P (fst (process_response P s m now))
+       = (fst (h_response E (inner P s) m)) <| co := (co (fst (h_response E (inner P s) m))) <| st := ST_DELETED |> |>
+    /\ my_id P (fst (process_response P s m now)) = (if r then 0 else my_id P s + 1).
+  Proof.
+    intros h1 h2 h3. unfold process_response.
+    destruct (res_id_unexpected _ _ _) eqn:e1; [exfalso; congruence|].
+    destruct (existsb _ response_exchanges) eqn:e2; [|exfalso; congruence].
+    cbn [negb].
+    change (inner P (set_my_id P s (my_id P s + 1))) with (inner P s).
+    change (handle_response P (inner P s) m) with (h_response E (inner P s) m).
+    destruct (h_response E (inner P s) m) as [i' out]. cbn [fst snd] in *. subst out.
+    destruct r; cbn; repeat split; reflexivity.
   Qed.
 End EntryPoints.
 
